@@ -264,7 +264,7 @@ static void run_history(vf::Ctx& ctx, const Problem& P, Solver& es, vw::OpCtl& c
 static const int GROUP_KINDS[3][3] = {{0, 1, 2}, {3, 4, -1}, {5, 6, -1}};
 static const int GROUP_NK[3] = {3, 2, 2};
 static const char* KSHORT[] = {"sym-dense", "sym-sparse", "sym-userop", "herm-dense", "herm-sparse", "symshift-dense", "symshift-sparse"};
-static long n_explore(const vf::Ctx& ctx) { return (ctx.thorough ? 9000L : 330L) * GROUP_NK[C01_GROUP]; }
+static long n_explore(const vf::Ctx& ctx) { return (ctx.thorough ? 4000L : 330L) * GROUP_NK[C01_GROUP]; }
 // fixed regression corpus over the finding-prone domain: double only, independent of VERIF_SEED
 static long n_corpus() { return sizeof(T) == 8 ? 70L * GROUP_NK[C01_GROUP] : 0L; }
 long vf_ncases(const vf::Ctx& ctx) { return n_explore(ctx) + n_corpus(); }
